@@ -34,6 +34,21 @@ def leBytes : Nat → Nat → List Nat
 def le64 (n : Nat) : List Nat := leBytes 8 n
 def le32 (n : Nat) : List Nat := leBytes 4 n
 
+/-- compiled form of `le64`: split once into 32-bit halves (two big-number operations for a
+    hash value ≥ 2^63 instead of sixteen), then small-number arithmetic -/
+def le64Fast (n : Nat) : List Nat :=
+  let lo := n % 4294967296
+  let hi := n / 4294967296
+  [lo % 256, lo / 256 % 256, lo / 65536 % 256, lo / 16777216,
+   hi % 256, hi / 256 % 256, hi / 65536 % 256, hi / 16777216]
+
+@[csimp] theorem le64_eq_fast : @le64 = @le64Fast := by
+  funext n
+  simp only [le64, le64Fast, leBytes]
+  refine List.cons_eq_cons.mpr ⟨by omega, List.cons_eq_cons.mpr ⟨by omega, List.cons_eq_cons.mpr ⟨by omega,
+    List.cons_eq_cons.mpr ⟨by omega, List.cons_eq_cons.mpr ⟨by omega, List.cons_eq_cons.mpr ⟨by omega,
+    List.cons_eq_cons.mpr ⟨by omega, List.cons_eq_cons.mpr ⟨by omega, rfl⟩⟩⟩⟩⟩⟩⟩⟩
+
 /-- byte-wise lexicographic `≤` — `Ord for str / String / [u8]` -/
 def bytesLe : List Nat → List Nat → Bool
   | [], _ => true
